@@ -367,7 +367,7 @@ class Run:
         self.wsd = MockWsDiscovery(IP)
         mdib_bytes = (REPO / 'tests' / '70041_MDIB_Final.xml').read_bytes()
         self.provider = mockstuff.SomeDevice(self.wsd, mdib_bytes, uuid.UUID(int=0x1234), components=comp,
-                                             ssl_context_container=self.p_cont, max_subscription_duration=15,
+                                             ssl_context_container=self.p_cont, max_subscription_duration=3600,
                                              alternative_hostname=ALT if c['p_alt'] else None)
         self.p_shared = None
         if c['p_srv'] != 'own':
@@ -460,10 +460,12 @@ class Run:
             tr['c_listen_tls'] = bool(srv.tls if self.c_shared is not None else srv.httpd.tls)
             tr['c_base_url'] = list(_scheme_host(cons.base_url))[:2]
             for op in c['ops']:
+                t0 = _time.monotonic()
                 try:
                     self.phase(op[0], self.do_op(op))
                 except Exception as ex:  # noqa: BLE001
                     self.phase(op[0], exc_name(ex))
+                self.tr['phases'][-1].append(round(_time.monotonic() - t0, 2))
         # shutdown
         self.ftime.wake.set()
         try:
@@ -492,15 +494,22 @@ class Run:
             cons.client('Get').get_mdib()
             return 'ok'
         if kind == 'operate':
-            n_att = len(self.net.attempts)
+            def n_p_attempts():
+                return sum(1 for a in list(self.net.attempts) if a['role'] == 'P')
+            n_att = n_p_attempts()
             fut = cons.client('Set').set_string(self.op_handle, '169.254.0.%d' % (op[1] % 250))
             reachable = (self.p_cont is not None) == self.tr['c_listen_tls']
             if reachable:
-                res = fut.result(timeout=5)
+                res = fut.result(timeout=60)
                 return 'ok:' + str(res.InvocationInfo.InvocationState.value)
-            # the report cannot be delivered: wait until the SCO worker has tried (or given up), never for the result
-            t_end = _time.monotonic() + 0.5
-            while _time.monotonic() < t_end and len(self.net.attempts) == n_att:
+            # the report cannot be delivered: wait until the SCO worker has tried, never for the result.  It tries
+            # only while the provider still holds a valid subscription for the report (otherwise an earlier failed
+            # attempt is already on record)
+            action = self.provider.mdib.sdc_definitions.Actions.OperationInvokedReport
+            live = [s for mgr in self.provider._subscriptions_managers.values()
+                    for s in list(mgr._subscriptions.objects) if s.is_valid and s.matches(action)]
+            t_end = _time.monotonic() + (60 if live else 0.2)
+            while _time.monotonic() < t_end and n_p_attempts() == n_att:
                 _time.sleep(0.005)
             return 'requested'
 
@@ -559,7 +568,9 @@ def run_world(req):
     traces = []
     for case in req['cases']:
         try:
+            t0 = _time.monotonic()
             traces.append(Run(case).run())
+            traces[-1]['wall_s'] = round(_time.monotonic() - t0, 2)
         except Exception:  # noqa: BLE001
             traces.append({'crash': traceback.format_exc()[-2000:]})
     return {'traces': traces}
